@@ -157,6 +157,7 @@ static void check_once(const OnceC &c, vf::Obs &o) {
 }
 
 int main(int argc, char **argv) {
+  vf::ctx().no_twin = true;  // expensive cases: no twin prelude
   vf::add_sub<DiffC>("diffusion", 500, rc::gen::exec([] {
     DiffC c;
     int n = (int)pick(2, 12);
